@@ -30,12 +30,13 @@ func (c rapidChoices) Choose(n int, what string) int {
 // harnessBug: the machinery contradicts itself. Never a violation: exit 2.
 func harnessBug(t interface{ Fatalf(string, ...interface{}) }, prop, format string, a ...interface{}) {
 	msg := fmt.Sprintf(format, a...)
-	rec.WriteFailure(rec.Failure{Prop: prop, Kind: "harness", Message: "HARNESS SELF-CHECK FAILED: " + msg})
+	harnessFailure = "HARNESS SELF-CHECK FAILED: " + msg
+	rec.WriteFailure(rec.Failure{Prop: prop, Kind: "harness", Message: harnessFailure})
 	t.Fatalf("HARNESS SELF-CHECK FAILED: %s", msg)
 }
 
 // the reference encoder may drop or add a container type at statically typed positions
-var c03Strict = av.Options{IgnoreListType: true, IgnoreMapType: true}
+var c03Strict = av.Options{IgnoreListType: true, IgnoreMapType: true, EmptyContainerNull: true}
 
 // c03One: decode(refEncode(value, choices)) must equal decode(goEncode(value)).
 // Returns (nonCanonicalChoices, skipped, failure).
